@@ -358,3 +358,30 @@ def run(ctx, R, tier):
         isinstance(src[0].value.values[1], ast.Call) and src[0].value.values[1].func.attr == "get"
     R.check(ok, "C20-R4", "key|header-then-param", "the key is taken from the header first, then from $key (read-only)", f.loc(src[0]) if src else f.loc(),
             "key lookup is `%s`" % (unparse(src[0].value) if src else "?"))
+
+    # the name server proxy is cached across requests: a request must not be answered from a dead connection
+    gn = ctx.fn("Pyro5.utils.httpgateway.get_nameserver")
+    gcfg = ctx.cfg(gn)
+    glob = [n.names[0] for n in walk_no_nested(gn.node) if isinstance(n, ast.Global) and n.names]
+    cached = glob[0] if glob else None
+    rets = [n for n in gcfg.nodes if n.kind == "stmt" and isinstance(n.ast, ast.Return) and isinstance(n.ast.value, ast.Name) and n.ast.value.id == cached]
+    pings = [c for c in walk_no_nested(gn.node) if isinstance(c, ast.Call) and isinstance(c.func, ast.Attribute) and isinstance(c.func.value, ast.Name)
+             and c.func.value.id == cached and not c.args]
+    ok = bool(cached) and bool(rets) and bool(pings)
+    why = "get_nameserver returns the cached proxy without calling it first"
+    if ok:
+        pn = [x for c in pings for x in ctx.node_of(gn, c)]
+        ok = all(any(gcfg.dominates(x, r) for x in pn) for r in rets)
+        if ok:
+            recover = False
+            for c in pings:
+                for t, part in enclosing_trys(c, gn.node):
+                    if part == "body":
+                        for h in t.handlers:
+                            if any(isinstance(st, ast.Assign) and any(isinstance(tt, ast.Name) and tt.id == cached for tt in st.targets) for st in h.body):
+                                recover = True
+            ok = recover
+            why = "a failed liveness call on the cached name server proxy is not followed by dropping it and reconnecting"
+    R.check(ok, "C20-R3", "get_nameserver|cached-proxy-validated", "the cached name server proxy is returned only after a liveness call; a lost connection drops the cache and reconnects", gn.loc(), why +
+            ": after the name server connection was lost between two requests, the next authorised request is not forwarded at all (500 from the lookup)")
+
